@@ -331,78 +331,82 @@ def fn_to_sympy(
 
 
 def _handle_fn_body(body: list[ast.stmt], ctx: Context) -> sympy.Expr | None:
-    pieces = []
-    remaining_body = list(body)
+    if not any(isinstance(n, ast.Return) for stmt in body for n in ast.walk(stmt)):
+        # If no return was found but we have assignments, return the last assigned variable
+        for node in body:
+            if not isinstance(node, ast.Assign | ast.Import | ast.ImportFrom):
+                msg = "No return value found in function body"
+                raise ValueError(msg)
+        for node in reversed(body):
+            if isinstance(node, ast.Assign) and isinstance(node.targets[0], ast.Name):
+                body = [*body, ast.Return(value=ast.Name(id=node.targets[0].id))]
+                break
+        else:
+            msg = "No return value found in function body"
+            raise ValueError(msg)
+    return _handle_block(list(body), ctx)
 
-    while remaining_body:
-        node = remaining_body.pop(0)
 
+def _handle_block(body: list[ast.stmt], ctx: Context) -> sympy.Expr | None:
+    """Value returned by executing the statements with the names known in ctx.
+
+    Every path through an if-statement is followed to its own return statement
+    with its own copy of the local names, so assignments made in one branch are
+    not seen by the other branch or by the code after it on the other path.
+    """
+    for idx, node in enumerate(body):
         if isinstance(node, ast.If):
             condition = _handle_expr(node.test, ctx)
-            if_expr = _handle_fn_body(node.body, ctx)
-            pieces.append((if_expr, condition))
+            rest = body[idx + 1 :]
+            if_expr = _handle_block(
+                [*node.body, *rest], ctx.updated(symbols=dict(ctx.symbols))
+            )
+            else_expr = _handle_block(
+                [*node.orelse, *rest], ctx.updated(symbols=dict(ctx.symbols))
+            )
+            if condition is None or if_expr is None or else_expr is None:
+                return None
+            if isinstance(else_expr, sympy.Piecewise):
+                # elif chains and consecutive ifs read better flat
+                return sympy.Piecewise((if_expr, condition), *else_expr.args)
+            return sympy.Piecewise((if_expr, condition), (else_expr, True))
 
-            # If there's an else clause
-            if node.orelse:
-                # Check if it's an elif (an If node in orelse)
-                if len(node.orelse) == 1 and isinstance(node.orelse[0], ast.If):
-                    # Push the elif back to the beginning of remaining_body to process next
-                    remaining_body.insert(0, node.orelse[0])
-                else:
-                    # It's a regular else
-                    else_expr = _handle_fn_body(node.orelse, ctx)  # FIXME: copy here
-                    pieces.append((else_expr, True))
-                    break  # We're done with this chain
-
-            elif not remaining_body and any(
-                isinstance(n, ast.Return) for n in body[body.index(node) + 1 :]
-            ):
-                else_expr = _handle_fn_body(
-                    body[body.index(node) + 1 :], ctx
-                )  # FIXME: copy here
-                pieces.append((else_expr, True))
-
-        elif isinstance(node, ast.Return):
+        if isinstance(node, ast.Return):
             if (value := node.value) is None:
                 msg = "Return value cannot be None"
                 raise ValueError(msg)
+            return _handle_expr(value, ctx)
 
-            expr = _handle_expr(value, ctx)
-            if not pieces:
-                return expr
-            pieces.append((expr, True))
-            break
-
-        elif isinstance(node, ast.Assign):
+        if isinstance(node, ast.Assign):
+            if len(node.targets) != 1:
+                msg = "Only single variable assignments are supported"
+                raise NotImplementedError(msg)
             # Handle tuple assignments like c, d = a, b
             if isinstance(node.targets[0], ast.Tuple):
-                # Handle tuple unpacking
                 target_elements = node.targets[0].elts
+                if not isinstance(node.value, ast.Tuple) or not all(
+                    isinstance(i, ast.Name) for i in target_elements
+                ):
+                    msg = "Only direct tuple unpacking is supported"
+                    raise NotImplementedError(msg)
 
-                if isinstance(node.value, ast.Tuple):
-                    # Direct unpacking like c, d = a, b
-                    value_elements = node.value.elts
-                    for target, value_expr in zip(
-                        target_elements, value_elements, strict=True
-                    ):
-                        if isinstance(target, ast.Name):
-                            expr = _handle_expr(value_expr, ctx)
-                            if expr is None:
-                                return None
-                            ctx.symbols[target.id] = expr
-                else:
-                    # Handle potential iterable unpacking
-                    value = _handle_expr(node.value, ctx)
+                # Evaluate the whole right hand side first (a, b = b, a)
+                values = []
+                for value_expr in node.value.elts:
+                    if (expr := _handle_expr(value_expr, ctx)) is None:
+                        return None
+                    values.append(expr)
+                for target, expr in zip(target_elements, values, strict=True):
+                    ctx.symbols[cast(ast.Name, target).id] = expr
             else:
                 # Regular single assignment
                 if not isinstance(target := node.targets[0], ast.Name):
                     msg = "Only single variable assignments are supported"
                     raise TypeError(msg)
-                target_name = target.id
                 value = _handle_expr(node.value, ctx)
                 if value is None:
                     return None
-                ctx.symbols[target_name] = value
+                ctx.symbols[target.id] = value
 
         elif isinstance(node, ast.Import):
             for alias in node.names:
@@ -424,18 +428,19 @@ def _handle_fn_body(body: list[ast.stmt], ctx: Context) -> sympy.Expr | None:
                     ctx.modules[name] = el
                 else:
                     _LOGGER.debug("Skipping import %s", node)
+
+        elif isinstance(node, ast.Pass) or (
+            isinstance(node, ast.Expr)
+            and isinstance(node.value, ast.Constant)
+            and isinstance(node.value.value, str)
+        ):
+            continue  # docstrings
+
         else:
-            _LOGGER.debug("Skipping node of type %s", type(node))
-
-    # If we have pieces to combine into a Piecewise
-    if pieces:
-        return sympy.Piecewise(*pieces)
-
-    # If no return was found but we have assignments, return the last assigned variable
-    for node in reversed(body):
-        if isinstance(node, ast.Assign) and isinstance(node.targets[0], ast.Name):
-            target_name = node.targets[0].id
-            return ctx.symbols[target_name]
+            # Anything else (loops, augmented assignments, ...) changes what the
+            # function computes, so it cannot be skipped
+            msg = f"Statement type {type(node).__name__} not implemented"
+            raise NotImplementedError(msg)
 
     msg = "No return value found in function body"
     raise ValueError(msg)
@@ -682,6 +687,10 @@ def _handle_call(node: ast.Call, ctx: Context) -> sympy.Expr | None:
         - object.call
         - Class.call
     """
+    if node.keywords or any(isinstance(i, ast.Starred) for i in node.args):
+        msg = "Only positional arguments are supported in calls"
+        raise NotImplementedError(msg)
+
     model_args: list[sympy.Expr] = []
     for i in node.args:
         if (expr := _handle_expr(i, ctx)) is None:
